@@ -25,7 +25,8 @@ pub fn parse_char_list(input: &str) -> Result<String, DataError> {
         return Ok(new);
     }
 
-    let real_len = input.len() - start_quote_count * 2;
+    // count characters, not bytes: it is used with the char-based `take` below
+    let real_len = input.chars().count() - start_quote_count * 2;
 
     let mut check_escape = false;
     let mut in_unicode = false;
@@ -100,7 +101,8 @@ pub fn parse_byte_list(input: &str) -> Result<Vec<u8>, DataError> {
         }
     }
 
-    let real_len = input.len() - start_quote_count * 2;
+    // count characters, not bytes: it is used with the char-based `take` below
+    let real_len = input.chars().count() - start_quote_count * 2;
 
     if start_quote_count >= 2 {
         parse_byte_list_numbers(&input[start_quote_count..(input.len() - start_quote_count)])
